@@ -67,7 +67,7 @@ def real_lex(text):
         return 'E' + type(e).__name__
     got = [(c, t) for c, t in _log]
     if [c for c, _ in got] != [type(t).__name__ for t in toks]:
-        return 'ELogMismatch'
+        return 'EDropped ' + ' '.join('%s=%s' % (c, S(t)) for c, t in got)
     return ' '.join(['OK'] + ['%s=%s' % (c, S(t)) for c, t in got])
 
 
@@ -179,7 +179,44 @@ def literal_text(rng):
     return s + rng.choice(TAILS)
 
 
+def table_literals():
+    """every literal alternative of every class of Lexer.TOKENS whose regex is an alternation of escaped literals (read from the classes of this run)"""
+    from excel2pycl.src.lexer import Lexer
+    out = []
+    for t in Lexer.TOKENS:
+        rx = getattr(t, 'regexp', None)
+        if not isinstance(rx, str) or not rx:
+            continue
+        alts, cur, i, ok = [], '', 0, True
+        while i < len(rx):
+            ch = rx[i]
+            if ch == '\\' and i + 1 < len(rx) and not rx[i + 1].isalnum():
+                cur += rx[i + 1]
+                i += 2
+                continue
+            if ch == '|':
+                alts.append(cur)
+                cur = ''
+            elif ch in '[](){}*+?.^$\\':
+                ok = False
+                break
+            else:
+                cur += ch
+            i += 1
+        if ok:
+            out += [a for a in alts + [cur] if a]
+    return out
+
+
+_TABLE_LITERALS = []
+
+
 def soup(rng):
+    if not _TABLE_LITERALS:
+        _TABLE_LITERALS.extend(table_literals() or [''])
+    if rng.random() < 0.35:
+        base = ['A1', '1', '"a"', '(', ')', ',', '+', ' ', 'SUM', '=']
+        return ''.join(rng.choice(_TABLE_LITERALS if rng.random() < 0.5 else base) for _ in range(rng.randrange(1, 7)))
     pieces = ['A1', 'B2', 'A1:B2', 'A:A', '$A$1', 'S!A1', "'x y'!A1", '1', '2.5', '1e3', '"a"', '"a*"', '""', 'TRUE', 'FALSE', 'SUM', 'SUMIF', 'SUMIFS', 'IF', 'IFS', 'IFERROR',
               'COUNT', 'COUNTBLANK', 'COUNTIFS', 'ROUND', 'ROUNDUP', 'ROUNDDOWN', 'DATE', 'DATEDIF', 'DAY', 'MATCH', 'XMATCH', 'MAX', 'MIN', 'MID', 'OR', 'AND', 'AVERAGE',
               'AVERAGEIFS', '(', ')', ',', ';', '~', '<>', '>=', '<=', '=', '>', '<', '+', '-', '*', '/', '&', '%', ' ', '  ', '\t', '\n', '#', '@', 'x', 'Я', '_', '.', ':', '!',
@@ -208,6 +245,10 @@ def run_lexer_streams(chk, tier, formulas):
         out = real_lex(t)
         chk.count('lex:' + out.split(' ')[0].split(':')[0])
         chk.seen(('lex', t))
+        if out.startswith('EDropped'):
+            chk.violation({'why': 'the lexer consumed a part of the text that is neither whitespace nor among the tokens it returns: that part of the formula is dropped',
+                           'text': t, 'consumed': out[9:][:400], 'stream': 'lexer-drops'})
+            continue
         cases.append(('lx ' + S(t), out, {'text': t}))
     chk.judge('lexer', cases, sample_cap=4)
     # one class at a time
